@@ -93,7 +93,11 @@ inductive DExpr where
   | intersect (a b : DExpr)
   | setdiff (a b : DExpr)
   | symdiff (a b : DExpr)
-  deriving Repr, Inhabited
+  /-- extension points: operator families modelled in their own modules (aggregation, joins,
+      analytic functions, validation …) plug in as functions on evaluated datasets. -/
+  | app1 (f : DS → R DS) (d : DExpr)
+  | app2 (f : DS → DS → R DS) (a b : DExpr)
+  deriving Inhabited
 
 def outName (meas : List String) (out : Option String) (m : String) : String :=
   match out, meas with
@@ -186,6 +190,8 @@ def evalD (env : Env) : DExpr → R DS
       pure { ids := x.ids, meas := ms, rows := x.rows.map (·.proj (x.ids ++ ms)) }
   | .rename d m => do
       let x ← evalD env d
+      -- two components may not end up with the same name (semantic analysis rejects it)
+      if !((x.comps.map (renameOf m)).Nodup) then .error .type else
       pure { ids := x.ids.map (renameOf m), meas := x.meas.map (renameOf m),
              rows := x.rows.map (fun r => x.comps.map (fun n => (renameOf m n, r.get n))) }
   | .sub d fix => do
@@ -198,6 +204,8 @@ def evalD (env : Env) : DExpr → R DS
   | .union a b => do
       let x ← evalD env a
       let y ← evalD env b
+      -- operands of a set operator have the same structure; the model asks for the same identifier list
+      if y.ids != x.ids then .error .unsupported else
       pure { x with rows := x.rows ++ (y.rows.filter (fun r => !keyIn x.ids x.keys r)).map (·.proj x.comps) }
   | .intersect a b => do
       let x ← evalD env a
@@ -207,9 +215,12 @@ def evalD (env : Env) : DExpr → R DS
       let x ← evalD env a
       let y ← evalD env b
       pure { x with rows := x.rows.filter (fun r => !keyIn x.ids (y.rows.map (·.key x.ids)) r) }
+  | .app1 f d => do f (← evalD env d)
+  | .app2 f a b => do f (← evalD env a) (← evalD env b)
   | .symdiff a b => do
       let x ← evalD env a
       let y ← evalD env b
+      if y.ids != x.ids then .error .unsupported else
       pure { x with rows := x.rows.filter (fun r => !keyIn x.ids (y.rows.map (·.key x.ids)) r)
                           ++ (y.rows.filter (fun r => !keyIn x.ids x.keys r)).map (·.proj x.comps) }
 
